@@ -35,11 +35,19 @@ def sha(obj):
     return hashlib.sha1(json.dumps(obj, sort_keys=True, default=str).encode()).hexdigest()[:16]
 
 
-class CaseTimeout(Exception):
-    pass
+class CaseTimeout(BaseException):
+    """Raised by the per-case alarm.  Deliberately NOT an Exception: the alarm fires inside whatever frame happens to
+    run (usually library code), and the oracles' `except Exception` clauses - which turn an exception raised by the library
+    into a violation - must never see it.  On a heavily loaded machine a swallowed alarm was reported as
+    `exception:<random rockit frame>` (DESIGN 9.24); a timed-out case is a cap, never a verdict."""
+
+
+_fired = [False]
+_poisoned = [False]        # a case of this worker timed out: interrupted library / cache state may linger in the process
 
 
 def _alarm(signum, frame):
+    _fired[0] = True       # the library has bare `except:` clauses that can swallow the exception: remember that it fired
     raise CaseTimeout()
 
 
@@ -74,18 +82,29 @@ def _linecov():
 
 
 def _run(case):
+    if _poisoned[0]:
+        return dict(retry=True, case=case)          # handed back; run_all gives it to a fresh worker process
     t = time.time()
     limit = int(case.get("_timeout", 60)) if isinstance(case, dict) else 60
+    limit = int(limit * float(os.environ.get("VERIF_TIMEOUT_FACTOR", "5")))     # generous: the limit only guards against non-termination
+    _fired[0] = False
     signal.alarm(limit)
     try:
         out = _mod.run_case(case)
         out.setdefault("violations", [])
+        if _fired[0]:
+            out = dict(violations=[], cap="timeout %ds (alarm swallowed inside the library; result discarded)" % limit)
     except CaseTimeout:
         out = dict(violations=[], cap="timeout %ds" % limit)
     except Exception as e:
-        out = dict(violations=[], harness_error="%s: %s\n%s" % (type(e).__name__, e, traceback.format_exc()[-1500:]))
+        if _fired[0]:       # the alarm surfaced as another exception type (e.g. SystemError out of a C extension)
+            out = dict(violations=[], cap="timeout %ds" % limit)
+        else:
+            out = dict(violations=[], harness_error="%s: %s\n%s" % (type(e).__name__, e, traceback.format_exc()[-1500:]))
     finally:
         signal.alarm(0)
+    if _fired[0]:
+        _poisoned[0] = True
     out["wall"] = time.time() - t
     out["case"] = case
     return out
@@ -93,11 +112,21 @@ def _run(case):
 
 def run_all(modname, cases, workers=None, chunksize=1):
     workers = workers or int(os.environ.get("VERIF_WORKERS", "16"))
-    workers = max(1, min(workers, len(cases)))
     ctx = mp.get_context("fork")
-    with ctx.Pool(workers, initializer=_init, initargs=(modname,), maxtasksperchild=400) as pool:
-        for out in pool.imap_unordered(_run, cases, chunksize=chunksize):
-            yield out
+    pending = list(cases)
+    for rnd in range(8):
+        if not pending:
+            return
+        retry = []
+        with ctx.Pool(max(1, min(workers, len(pending))), initializer=_init, initargs=(modname,), maxtasksperchild=400) as pool:
+            for out in pool.imap_unordered(_run, pending, chunksize=chunksize):
+                if out.get("retry"):
+                    retry.append(out["case"])     # its worker had been interrupted by a timeout before
+                else:
+                    yield out
+        pending = retry
+    for c in pending:
+        yield dict(violations=[], cap="no clean worker process after 8 rounds of timeouts", case=c, wall=0.0)
 
 
 def run_inline(modname, case):
